@@ -31,6 +31,8 @@ FILES = [
     "src/series/data.rs",
     "src/seek.rs",
     "src/seek/estimate.rs",
+    "src/series/downsample.rs",
+    "src/series/downsample/repair.rs",
 ]
 
 NEWTYPES = {"MetaPos", "LinePos", "PayloadSize"}
@@ -47,6 +49,9 @@ STRUCTS = {
     "Index": ("Index", {"entries": "entries", "last_timestamp": "last_timestamp"}),
     "Data": ("Impl.DataView", {"payload_size": "p", "data_len": "dataLen", "last_time": "lastTime",
                                "index": "@index"}),
+    # the cache as `repair::add_missing_data` sees it: its own Data, the bucket size, `lines_to_skip`
+    "DownSampledData": ("CacheView", {"data": "data", "config": "@same", "lines_to_skip": "lines_to_skip"}),
+    "Config": ("CacheView", {"bucket_size": "bucket_size"}),
 }
 # every field of these structs must be in the map (a new field changes what the type means)
 STRUCTS_EXACT = {"RoughPos", "Pos", "Estimate", "Entry"}
@@ -82,6 +87,17 @@ EXTERNALS = {
     "find_read_end": ("(Impl.findReadEnd {0}.p d {1} {2} {3})", "mon", "u64"),
 }
 
+# calls / assignments with an effect outside the translated function become ACTIONS appended to a trace
+# the function returns (type `List CatchUp` of GenPrelude.lean); `final`: the rest of the body only maps the
+# external's error, translation stops there
+EFFECT_METHODS = {
+    ("Data", "clear"): ("CatchUp.clear", False),
+    (None, "read_with_processor"): ("(CatchUp.replay {0})", True),
+}
+EFFECT_FIELDS = {("DownSampledData", "lines_to_skip"): "(CatchUp.skip {0})"}
+TRACE_TARGETS = {(None, "add_missing_data")}
+SKIP_PARAMS = {"corruption_callback"}
+
 # (file, impl type or None, fn, extra parameters appended to the Lean signature)
 TARGETS = [
     ("src/series/data.rs", None, "const:MAX_SMALL_TS", None),
@@ -113,6 +129,7 @@ TARGETS = [
     ("src/seek.rs", "RoughPos", "refine", "(d : Bytes)"),
     ("src/seek.rs", "Pos", "lines", None),
     ("src/seek/estimate.rs", "RoughPos", "estimate_lines", None),
+    ("src/series/downsample/repair.rs", None, "add_missing_data", None),
 ]
 
 LEAN_KEYWORDS = {"end", "at", "from", "open", "section", "then", "do", "fun", "in", "have", "show", "where",
@@ -133,6 +150,7 @@ def norm_type(t, impl=None):
     if t is None:
         return None
     t = t.replace(" ", "")
+    t = re.sub(r"^((?:&(?:'[a-z_]+)?(?:mut)?)*)DownSampledData<\w+>$", r"\1DownSampledData", t)
     t = re.sub(r"^(&('[a-z_]+)?(mut)?)+", "", t)
     t = re.sub(r"^mut", "", t) if t.startswith("mut") and not t.startswith("mutable") and len(t) > 3 and t[3].isupper() else t
     if t == "Self" and impl:
@@ -241,6 +259,11 @@ class Tr:
         self.const_ctx = const_ctx
         self.last_ty = None
         self.sink = None
+        self.trace = (impl, fn_name) in TRACE_TARGETS
+        if self.trace:
+            self.sink = "trace_"
+            self.mutables.add("trace_")
+        self.stopped = False
         self.iters = []
         for p in params:
             if p[0] == "self":
@@ -249,6 +272,8 @@ class Tr:
                 pat, ty = p
                 if pat[0] != "pbind":
                     raise Unsupported("parameter pattern")
+                if pat[1] in SKIP_PARAMS:
+                    continue
                 nt = norm_type(ty, impl)
                 self.scope[pat[1]] = nt
                 if is_sink(nt):
@@ -501,10 +526,11 @@ class Tr:
         if op in ("==", "!=", "<", ">", "<=", ">="):
             sa, ta, va = self.atom_of(a)
             sb, tb, vb = self.atom_of(b)
-            for v in (va, vb):
-                if v.ty and v.ty.startswith("Option<") or v.ty == "Option<?>":
-                    if op not in ("==", "!="):
-                        raise Unsupported("ordering of Options")
+            if any((v.ty or "").startswith("Option<") for v in (va, vb)) and op in ("<", ">", "<=", ">="):
+                # `Option`'s derived order: None < Some(_), Some by value
+                term = {"<": f"(Rs.optLt {ta} {tb} = true)", ">": f"(Rs.optLt {tb} {ta} = true)",
+                        "<=": f"(Rs.optLt {tb} {ta} = false)", ">=": f"(Rs.optLt {ta} {tb} = false)"}[op]
+                return Val(sa + sb, term, "pure", "bool", prop=True)
             lop = {"==": "=", "!=": "≠", "<": "<", ">": ">", "<=": "≤", ">=": "≥"}[op]
             return Val(sa + sb, f"({ta} {lop} {tb})", "pure", "bool", prop=True)
         if op in ("&&", "||"):
@@ -559,6 +585,8 @@ class Tr:
             fty = self.field_type(ty, f)
             if fmap[f] == "@index":
                 return Val(s, f"(Rs.indexOf {t})", "pure", "Index")
+            if fmap[f] == "@same":
+                return Val(s, t, "pure", fty)
             return Val(s, f"{t}.{fmap[f]}", "pure", fty)
         raise Unsupported(f"field .{f} on a value of type {ty}")
 
@@ -823,6 +851,14 @@ class Tr:
             return v
         if name == "copy_from_slice":
             return self.copy_from_slice(recv_e, args[0])
+        if name == "map_err":
+            return self.tr(recv_e)                      # only the error's wrapping changes
+        if self.trace and (None, name) in EFFECT_METHODS:
+            tmpl, final = EFFECT_METHODS[(None, name)]
+            sx, tx, _ = self.atom_of(args[0])
+            if final:
+                self.stopped = True
+            return Val(sx + [("assign", "trace_", f"trace_ ++ [{tmpl.format(tx)}]")], "()", "mon_unit")
         if name == "contains" and recv_e[0] == "range" and recv_e[1] is not None and recv_e[2] is not None:
             sa, ta, _ = self.atom_of(recv_e[1])
             sb, tb, _ = self.atom_of(recv_e[2])
@@ -841,6 +877,11 @@ class Tr:
             return Val([("letp", t, f"{it}.head?"), ("assign", it, f"{it}.tail")], t, "pure", f"Option<{norm_type(elem)}>")
         recv = self.tr(recv_e)
         ty = recv.ty
+        if self.trace and (ty, name) in EFFECT_METHODS:
+            tmpl, final = EFFECT_METHODS[(ty, name)]
+            if final:
+                self.stopped = True
+            return Val(recv.stmts + [("assign", "trace_", f"trace_ ++ [{tmpl}]")], "()", "mon_unit")
         if is_bytes(ty) and name == "len":
             s_, t_ = self.atom(recv)
             return Val(s_, f"{t_}.length", "pure", "usize")
@@ -1075,6 +1116,8 @@ class Tr:
         saved = dict(self.scope)
         out = []
         for st in block[1]:
+            if self.stopped:
+                break
             k = st[0]
             if k == "use":
                 self.handle_use(st[1])
@@ -1089,6 +1132,11 @@ class Tr:
             else:
                 raise Unsupported(f"statement {k}")
         tail = block[2]
+        if self.stopped:
+            self.scope = saved
+            if not out or out[-1][0] not in ("return", "throw"):
+                out.append(("return", f"(trace_, ())") if self.trace else ("pure", "()"))
+            return out
         if tail is not None:
             if tail[0] in ("return", "break", "continue"):
                 out += self.stmt_expr(tail)
@@ -1126,11 +1174,14 @@ class Tr:
         if mutable:
             self.mutables.add(pat[1])
         if v.kind == "mon_unit":
+            if self.stopped:
+                return v.stmts
             raise Unsupported("let of a unit effect")
         self.scope.update(binds)
         kw = "letmut" if mutable else "let"
         if v.kind == "pure":
-            return v.stmts + [(kw + "p", ps, v.term)]
+            # a comparison bound to a name is a `bool` in Rust: decide it
+            return v.stmts + [(kw + "p", ps, f"(decide {v.term})" if v.prop else v.term)]
         if v.kind == "mon":
             return v.stmts + [(kw + "m", ps, v.term)]
         if v.kind == "code":
@@ -1139,6 +1190,12 @@ class Tr:
 
     def assign_stmt(self, st):
         _, op, lhs, rhs = st
+        if self.trace and op == "=" and lhs[0] == "field":
+            base = self.tr(lhs[1])
+            key = (base.ty, lhs[2])
+            if key in EFFECT_FIELDS and not base.stmts:
+                s2, tv, _ = self.atom_of(rhs)
+                return s2 + [("assign", "trace_", f"trace_ ++ [{EFFECT_FIELDS[key].format(tv)}]")]
         if op == "=" and lhs[0] == "index" and lhs[1][0] == "path" and len(lhs[1][1]) == 1 and lhs[1][1][0] in self.mutables \
            and is_bytes(self.scope.get(lhs[1][1][0])):
             name = mangle(lhs[1][1][0])
@@ -1269,6 +1326,8 @@ def lean_type(t, impl=None):
         return lean_type(generic_arg(t, "Result"), impl)
     if t.startswith("RangeInclusive<"):
         return "(Nat × Nat)"
+    if t.startswith("Result<(),"):
+        return "Unit"
     if t.startswith("(") and t.endswith(")"):
         parts = split_tuple_type(t)
         if not parts:
@@ -1336,9 +1395,13 @@ def translate_one(w, generated, impl, fn, extra):
     tr = Tr(w, generated, impl, fn, params, ret)
     sig = []
     pre = []
+    if tr.trace:
+        pre.append(("letmutp", "trace_", "([] : List CatchUp)"))
     for p in params:
         if p[0] == "self":
             sig.append(f"(self : {lean_type(impl)})")
+        elif p[0][0] == "pbind" and p[0][1] in SKIP_PARAMS:
+            continue
         elif is_sink(norm_type(p[1], impl)):
             pre.append(("letmutp", mangle(p[0][1]), "([] : Bytes)"))
         else:
@@ -1350,7 +1413,7 @@ def translate_one(w, generated, impl, fn, extra):
     rty = lean_type(ret, impl) if ret else "Unit"
     sq = tr.seq(body, "value")
     if tr.sink:
-        rty = f"(Bytes × {rty})"
+        rty = f"(List CatchUp × {rty})" if tr.trace else f"(Bytes × {rty})"
         last = sq[-1]
         if last[0] == "pure":
             sq = sq[:-1] + [("pure", f"({mangle(tr.sink)}, {last[1]})")]
